@@ -84,7 +84,7 @@ def gen_case(rng, tier):
     else:
         kind = rng.choice(['twice-direct', 'diamond', 'nested-twice', 'missing', 'two-dirs', 'same-dir-twice', 'symlink-dir',
                            'unselected-include', 'unselected-missing', 'unselected-then-selected', 'selected-include',
-                           'case-twin-names'])
+                           'case-twin-names', 'define-across-include', 'define-across-include'])
         d = lambda v: {'k': 'data', 'w': 1, 'vals': [('num', v)]}  # noqa
         inc = lambda i: {'k': 'include', 'f': i, 'name': f'inc{i}.asm'}  # noqa
         cfg = {'bits': 16, 'little': False, 'regs': ['ra', 'rb'], 'preZones': [], 'preConsts': [], 'preData': []}
@@ -94,6 +94,23 @@ def gen_case(rng, tier):
             files = [[inc(1), inc(2)], [d(1), inc(3)], [d(2), inc(3)], [d(9)]]
         elif kind == 'nested-twice':
             files = [[inc(1), d(1)], [inc(2), d(2)], [d(3), inc(1)]]
+        elif kind == 'define-across-include':
+            # a symbol defined in one file and tested with #ifdef / #ifndef in the other, the #define standing on a HIGHER line
+            # number in its file than the test in the other file (and the other way round): "defined" means defined at that
+            # point of the flattened program
+            tst = {'k': 'cond', 'd': rng.choice(['ifdef', 'ifndef']), 's': 'SYM_X'}
+            blk = [tst, d(0x51), {'k': 'cond', 'd': 'else'}, d(0x52), {'k': 'cond', 'd': 'endif'}]
+            dfn = {'k': 'define', 'name': 'SYM_X', 'v': 1}
+            pad = [d(0x10 + i) for i in range(rng.randint(2, 5))]
+            shape = rng.choice(['lib-defines', 'main-defines', 'lib-defines-late-test', 'test-before-define'])
+            if shape == 'lib-defines':
+                files = [[inc(1)] + blk + [d(2)], pad + [dfn]]
+            elif shape == 'main-defines':
+                files = [pad + [dfn, inc(1), d(2)], blk]
+            elif shape == 'lib-defines-late-test':
+                files = [[inc(1)] + pad + pad + blk, [dfn, d(9)]]
+            else:
+                files = [blk + [inc(1)] + blk, pad + [dfn]]
         elif kind == 'case-twin-names':
             # two DIFFERENT files whose names differ in letter case only (also: a re-capitalisation of the main file's name):
             # each is included once, so this is no double inclusion
